@@ -67,7 +67,7 @@ def catalogue(tier):
 
 def plan(tier, seed):
     cat = catalogue(tier)
-    per = 5 if tier == "quick" else 60
+    per = 5 if tier == "quick" else 100
     cases = []
     for ci, cfg in enumerate(cat):
         for k in range(per):
